@@ -578,6 +578,11 @@ func ruleBudgetNotEarly(c *Ctx) {
 		}
 	})
 	R.Ob("(*dataReader).Read/over-limit returns found", c.P.Pos(f.Pos()), n >= 1, fmt.Sprintf("%d returns of ErrDataTooLarge", n))
+	// ... and it is armed only by a positive maximum: a negative MaxMessageBytes means "no limit" at every other site
+	// (EHLO SIZE, MAIL SIZE=); armed with a negative budget, the first Read reports 552 for every message
+	for _, site := range c.Sites("st:dataReader.limited=true") {
+		c.obUnreach("limit armed", site, `Server.MaxMessageBytes < 0`)
+	}
 	// ... and the budget is the configured maximum, nothing smaller (a SIZE the client announced is an estimate, it
 	// does not delimit the message)
 	if g := c.A.Func("newDataReader"); g != nil {
